@@ -326,6 +326,10 @@ def evaluate(dep, program):
                 if not oracles.same_values(raw[:, :5], exp):
                     v.append(Violation(PROPERTY, "C05.helper-post-rows", "C05:helper:posterior-nonlinear-altered", oracles.first_diff(raw[:, :5], exp)))
     probes["lstar_evals"] = L.evals
+    for li, lib in enumerate(dep.world.libraries):
+        bad = lib.modified_in_place()
+        if bad:
+            v.append(Violation("C05", "C05.input-modified", "C05:library-object-modified-in-place-by-a-call", "library %d: column(s) %s of the user's JokerSamples object no longer hold what was put there; later calls see another library" % (li, bad)))
     return v, probes
 
 
